@@ -1256,7 +1256,10 @@ func (g *Gen) misuseOp() *Op {
 	var rows []int
 	for i, mc := range MisuseTable {
 		isLocked := mc.Class == "locked" || mc.Class == "lockedrel"
-		if isLocked != locked {
+		// rows that only work with query and filter objects are also run while other queries are open: a lock bit they
+		// release twice, or fail to release, then belongs to somebody else
+		both := mc.Class == "debugguardN" || mc.Class == "badquery" || mc.Class == "filterstate"
+		if isLocked != locked && !(both && locked) {
 			continue
 		}
 		rows = append(rows, i)
